@@ -1,10 +1,12 @@
 // C16 - publisher: subscribers see a gap-free, ordered, duplicate-free stream
 #include <scn/publisher.h>
+#include <scn/strings.h>
 #define RUN(name, nthreads, wd, call) if (o.want(name)) { vf::report R("C16", name, o); vf::g_active_report = &R; vf::team T(nthreads, o, wd); call; T.export_hits(R); R.write(); vf::g_active_report = nullptr; }
 int main(int argc, char **argv) {
     vf::opts o(argc, argv);
     vf::install_crash_handler();
     RUN("publisher_history", 1, true, scn::publisher_history(o, R, o.cases));
+    RUN("publisher_string_values", 1, true, scn::publisher_string_values(o, R, o.cases));
     RUN("publisher_mt", o.threads, true, scn::publisher_mt(o, R, T, o.cases));
     RUN("publisher_two_publishers", o.threads, true, scn::publisher_two_publishers(o, R, T, o.cases / 2 + 1));
     return 0;
